@@ -225,6 +225,13 @@ func (e *Env) termV3Temporal(k *scoreKit) bool {
 }
 
 func (e *Env) termV3Env(k *scoreKit) bool {
+	E := k.level("Environmental")
+	_, ok := k.compareScore("score-term", E.Method("Score"), v3EnvRef(k))
+	return ok
+}
+
+// v3EnvRef is the FIRST v3.0/v3.1 environmental equation as guarded reference leaves.
+func v3EnvRef(k *scoreKit) []refLeaf {
 	{
 		E := k.level("Environmental")
 		valid := k.valid(E, E)
@@ -256,8 +263,7 @@ func (e *Env) termV3Env(k *scoreKit) bool {
 			{"scope unchanged, impact <= 0", []*ir.Term{valid, ir.NotCond(changed), le0(miU)}, fl(0)},
 			{"scope unchanged", []*ir.Term{valid, ir.NotCond(changed), ir.NotCond(le0(miU))}, outU},
 		}
-		_, ok := k.compareScore("score-term", E.Method("Score"), ref)
-		return ok
+		return ref
 	}
 }
 
@@ -276,8 +282,8 @@ func v2BaseEq(k *scoreKit, from *facts.Level, x *ir.Term) (zero, nonzero *ir.Ter
 
 func (e *Env) reportHits(hits []kfHit, helper string) {
 	for _, h := range hits {
-		e.C.Fail("rounding-point", fmt.Sprintf("func=%s helper=%s operand=%s", h.fn, helper, h.role), h.pos,
-			"the sub-score is rounded to two decimals before it is used; the specification (and the property: 'evaluated exactly on the unrounded sub-scores') rounds only the final score")
+		e.C.Fail("rounding-point", fmt.Sprintf("helper=%s operand=%s", helper, h.role), h.pos,
+			"the sub-score is rounded to two decimals (in "+h.fn+") before it is used; the specification (and the property: 'evaluated exactly on the unrounded sub-scores') rounds only the final score")
 	}
 }
 
